@@ -297,7 +297,7 @@ def parse_kani_output(text, names):
     return results
 
 
-def rss_watchdog(stop, killed):
+def rss_watchdog(stop, killed, cap_kb=RSS_CAP_KB):
     """Kill cbmc children above the RSS cap (never the kani driver itself)."""
     while not stop.wait(5.0):
         try:
@@ -306,7 +306,7 @@ def rss_watchdog(stop, killed):
             continue
         for line in out.splitlines()[1:]:
             parts = line.split()
-            if len(parts) >= 3 and parts[2].startswith("cbmc") and int(parts[1]) > RSS_CAP_KB:
+            if len(parts) >= 3 and parts[2].startswith("cbmc") and int(parts[1]) > cap_kb:
                 try:
                     os.kill(int(parts[0]), signal.SIGKILL)
                     killed.append(int(parts[0]))
@@ -328,14 +328,14 @@ def kani_cmd(scratch, names, cap, jobs, extra=()):
     return cmd
 
 
-def run_kani(scratch, names, cap, jobs, logpath, extra=()):
+def run_kani(scratch, names, cap, jobs, logpath, extra=(), rss_cap_kb=RSS_CAP_KB):
     cmd = kani_cmd(scratch, names, cap, jobs, extra)
     env = dict(os.environ)
     env["CARGO_NET_OFFLINE"] = "true"
     env.pop("RUSTUP_TOOLCHAIN", None)
     stop = threading.Event()
     killed = []
-    th = threading.Thread(target=rss_watchdog, args=(stop, killed), daemon=True)
+    th = threading.Thread(target=rss_watchdog, args=(stop, killed, rss_cap_kb), daemon=True)
     th.start()
     t0 = time.time()
     with open(logpath, "w") as lf:
@@ -365,7 +365,8 @@ def concrete_playback(scratch, h, cap, workdir):
     """Ask Kani for the concrete values of the counterexample; returns unit test text or None."""
     logpath = os.path.join(workdir, "playback_%s.log" % h.name)
     _rc, text, _t, _k = run_kani(scratch, [h.name], cap, 1, logpath,
-                                 extra=["-Z", "concrete-playback", "--concrete-playback", "print"])
+                                 extra=["-Z", "concrete-playback", "--concrete-playback", "print"],
+                                 rss_cap_kb=40 * 1024 * 1024)
     m = PLAYBACK_RE.search(text)
     if not m:
         return None
@@ -387,7 +388,8 @@ def native_replay(h, test_src, profile_release=False):
         open(tgt, "w").write(s)
         mt = re.search(r"fn (kani_concrete_playback_\w+)", test_src)
         tname = mt.group(1) if mt else "kani_concrete_playback"
-        cmd = ["cargo", "kani", "playback", "-Z", "concrete-playback", "--no-default-features", "--lib"]
+        cmd = ["cargo", "kani", "playback", "-Z", "concrete-playback", "--no-default-features",
+               "--features", "with_plain", "--lib"]
         cmd += ["--", tname]
         env = dict(os.environ)
         env["CARGO_NET_OFFLINE"] = "true"
@@ -453,7 +455,7 @@ def run_check(prop, tier, seed, extra_engines=None, only=None):
     reg = load_registry()
     hs = select(reg, prop, tier)
     if only:
-        hs = [h for h in hs if h.name in only]
+        hs = [h for h in hs if any(h.name == o or re.search(o, h.name) for o in only)]
     known = load_known()
     workdir = tempfile.mkdtemp(prefix="geodesy-verif-logs.%s." % prop,
                                dir=os.environ.get("VERIF_SCRATCH") or tempfile.gettempdir())
@@ -494,10 +496,19 @@ def run_check(prop, tier, seed, extra_engines=None, only=None):
                     results = {}
                 else:
                     results = parse_kani_output(text, names)
-                    if killed:
-                        for r in results.values():
-                            if r.status == "undecided" and not r.reason:
-                                r.reason = "cbmc killed by RSS watchdog"
+                    # second pass: harnesses that ran out of memory under the parallel cap are
+                    # re-run two at a time with a 28 GB cap (a failing property often needs
+                    # more memory than the proof of the same property)
+                    oom = [n for n in names if results[n].status == "undecided" and "oom" in results[n].reason]
+                    if oom:
+                        log("re-running %d harness(es) that hit the memory cap, 2 at a time: %s" % (len(oom), " ".join(oom)))
+                        logpath2 = os.path.join(workdir, "kani_oom_retry.log")
+                        _rc, text2, w2, _k = run_kani(scratch, oom, cap, min(2, len(oom)), logpath2,
+                                                      rss_cap_kb=28 * 1024 * 1024)
+                        kani_wall += w2
+                        res2 = parse_kani_output(text2, oom)
+                        for n in oom:
+                            results[n] = res2[n]
         # ---- judge
         byname = {h.name: h for h in hs}
         for name, r in sorted(results.items()):
